@@ -150,6 +150,7 @@ def handleNs (j : Json) : Except String Json := do
               ("resolved", jarrL resolved), ("types", jarrL tys),
               ("closed", match stub with | .ok d => Json.bool (closedB d) | .error _ => Json.null),
               ("wf", Json.mkObj [("chains", Json.bool (chainsOK api)), ("refs", Json.bool (refsCovered api ns)),
+                                 ("own", Json.bool (ownRefsDefined api ns)),
                                  ("direct", Json.bool (directCovered ns)),
                                  ("alias_stable", Json.bool (aliasNamesStable N ns))])]
 
